@@ -10,7 +10,7 @@ from .common import safe
 
 ID = 'C20'
 RULE = ('Labelled removal-enabled DynGraphs (3-5 nodes, <= 6 snapshot ids, int or _-free string ids, 1-2 categorical labels '
-        'with 1-3 values, every node labelled) x start on/off the ids x delta 0-5 x alphas from {0.5, 1, 2.5} x '
+        'with 1-3 values, every node labelled) x start on/off the ids x delta 0-5 x 1-2 alphas from an 11-value pool (incl. pairs that print alike with two decimals, never in one call) x '
         'profile_size 1-2 x all five path types. Oracles: every score in [-1-1e-9, 1+1e-9]; scored nodes == nodes present '
         'at start in the model slice [start, start+delta]; None iff that slice is empty; scores unchanged (1e-9) under a '
         'bijective renaming of label values and of node ids (the graph is rebuilt from the renamed history); with one shared '
@@ -20,15 +20,20 @@ RULE = ('Labelled removal-enabled DynGraphs (3-5 nodes, <= 6 snapshot ids, int o
         'reaches >= 2 others at different hop distances.')
 ASSUMPTIONS = ['e > t', "node ids are ints or '_'-free strings", 'static categorical labels, no hierarchies, sample=1']
 TECHNIQUE = 'metamorphic PBT (relabelling, node renaming, uniform labels, sliding vs direct) with brute-force reachability'
-BUDGET = {'quick': {'cases': 5000, 'seconds': 50}, 'thorough': {'cases': 150000, 'seconds': 560}}
+BUDGET = {'quick': {'cases': 5000, 'seconds': 80}, 'thorough': {'cases': 150000, 'seconds': 560}}
 PATH_TYPES = ['shortest', 'fastest', 'foremost', 'fastest_shortest', 'shortest_fastest']
 EPS = 1e-9
+
+
+# damping factors incl. near-twins that print alike with two decimals (1 / 1.004, 0.5 / 0.496, 2 / 1.996, 1/3 / 0.33): results
+# are keyed by '%.2f' % alpha, so one call never gets two of a kind, but consecutive calls do
+ALPHAS = [0.5, 1, 2.5, 0.505, 1.234, 2, 1.004, 0.496, 1.996, 1 / 3, 0.33]
 
 
 def strategy(tier):
     return st.tuples(pc.graph_strategy(classes=('DynGraph',), tier=tier, uni=(5, 7), max_ops=16, chains=True), st.lists(st.integers(0, 2), min_size=8, max_size=8),
                      st.lists(st.integers(0, 2), min_size=8, max_size=8), st.integers(1, 2), st.integers(1, 2),
-                     st.lists(st.sampled_from([0.5, 1, 2.5, 0.505, 1.234, 2]), min_size=1, max_size=2, unique=True), st.sampled_from(PATH_TYPES),
+                     st.lists(st.sampled_from(ALPHAS), min_size=1, max_size=2, unique_by=lambda a: '%.2f' % a), st.sampled_from(PATH_TYPES),
                      st.integers(0, 9), st.sampled_from(['id', 'id', 'id', 'off', 'before']), st.integers(0, 5), st.integers(0, 5)).map(
         lambda x: dict(x[0], lab1=x[1], lab2=x[2], nlabels=x[3], psize=min(x[4], x[3]), alphas=x[5], ptype=x[6], si=x[7], smode=x[8],
                        delta=x[9], perm=x[10]))
@@ -173,7 +178,9 @@ def run_case(case, rec):
                 nontrivial = True
     # ---- sliding
     if case['si'] % 3 == 0:
-        ok, sl = safe(al.sliding_delta_conformity, G, delta, alphas, labels, **kw)
+        import contextlib, io
+        with contextlib.redirect_stderr(io.StringIO()):     # the sliding variant switches the inner progress bars on
+            ok, sl = safe(al.sliding_delta_conformity, G, delta, alphas, labels, **kw)
         sctx = 'sliding_delta_conformity(delta=%r, alphas=%r, labels=%r, %r)' % (delta, alphas, labels, kw)
         if rec.check('C20.sliding.call', ok, lambda: '%s raised %r' % (sctx, sl)):
             exp = {}
